@@ -168,6 +168,9 @@ func instrumentFile(p *packages.Package, f *ast.File, src []byte, rel, root stri
 		if !ok {
 			continue
 		}
+		if coarsePkgs[p.PkgPath] && ipath != "sync" && ipath != "time" {
+			continue // helper packages: only the scheduler-relevant imports are redirected
+		}
 		if _, err := os.Stat(filepath.Join(root, "zzverif", sh[0])); err != nil {
 			continue // shim not present: leave the real package
 		}
